@@ -204,6 +204,12 @@ func newRecvSide(base string, consume bool) *recvSide {
 	_ = os.MkdirAll(r.FinalDir, 0o755)
 	_ = os.MkdirAll(r.LogDir, 0o755)
 	r.boot(consume)
+	// As after any server start over an existing stage directory: Recover() also
+	// fixes the start of the in-memory cache window.  (Without it a Stage that has
+	// not delivered anything yet answers every predecessor look-up by walking the
+	// day files from year 0 - ~740 000 opens per 10 s retry - which is a
+	// performance problem of its own but makes runs take minutes of real time.)
+	r.Stage.Recover()
 	return r
 }
 
